@@ -47,7 +47,12 @@ CoreNums(X) == /\ RIsNum(X.t) /\ RIsNum(X.pwm)
                /\ \A i \in 1..Len(X.el) : \A f \in {"ft", "sb", "sc"} : X.el[i][f] = SNull \/ RIsNum(X.el[i][f])
                /\ (X.cur = SNull \/ RIsNum(X.cur))
 
-SL == Tr.selfLocking
+\* Is the powertrain self-locking?  Decided by the SPECIFICATION from the chain the trace describes (a worm mating whose friction
+\* coefficient exceeds cos(alpha) tan(beta)), not read off the implementation's flag - except where the friction is not known
+\* (executions of the repository's own tests: relation attributes only) or lies within rounding distance of its threshold.
+ChainKnown == \A i \in 1..Len(Tr.elems) : Tr.elems[i].rtype # "attr"
+SLclass == SelfLockingClass(Tr.elems)
+SL == IF ChainKnown /\ SLclass # "band" THEN SLclass = "true" ELSE Tr.selfLocking
 NumSteps(r) == RRound(RDiv(r.T, r.dt))                      \* T = n * dt (generated so)
 Fresh(r) == r.first = 1
 ExpectedLast(r) == IF Fresh(r) THEN RToInt(NumSteps(r)) + 1 ELSE r.first + RToInt(NumSteps(r)) - 1
@@ -274,7 +279,8 @@ NewSolver == /\ ph = "op" /\ oi <= Len(Tr.ops) /\ Op.op = "new_solver"
 
 RunBegin == /\ ph = "op" /\ oi <= Len(Tr.ops) /\ Op.op = "run"
             /\ LET r == Op
-                   f == Failing({ <<"RunOutcome_" \o r.outcome, r.outcome \in RunOutcomeExpected(r) \/ (r.outcome \notin {"ok"} /\ r.last >= r.first)>> }) IN
+                   f == Failing({ <<"RunOutcome_" \o r.outcome, r.outcome \in RunOutcomeExpected(r) \/ (r.outcome \notin {"ok"} /\ r.last >= r.first)>>,
+                                  <<"LockFlagOfPowertrain", Tr.selfLocking = SL>> }) IN
                /\ Report(f, 0) /\ nf' = nf + (IF f = {} THEN 0 ELSE 1)
                /\ IF r.last >= r.first /\ RecCount(r) >= r.first THEN ph' = "inst" /\ k' = r.first
                   ELSE ph' = "end" /\ k' = r.first
